@@ -97,8 +97,16 @@ func genC04(seed uint64, tier string) *Plan {
 			add("node-pub", t, int64(r.rng(8, 100)))
 		case x < 85:
 			add("release", int64(r.intn(6)))
-		case x < 92:
+		case x < 88:
 			add("adv", int64(r.rng(10, 900)))
+		case x < 90:
+			add("disconnect", i) // a forwarder leaves while its message may still be in validation
+		case x < 92:
+			add("reconnect", i, int64(r.intn(2)))
+			add("identify", i)
+			add("adv", 5)
+			add("open", i)
+			add("sub", i, t)
 		case x < 95:
 			add("adv", int64(r.rng(900, 3000)))
 		default:
@@ -236,9 +244,15 @@ func runC04(s *sim) {
 					}
 				}
 			}
+			// scores are never positive in this configuration (application score 0, tiny negative topic
+			// weight), so a forwarder's record is retained across a disconnect (RetainScore 10 min):
+			// it must be penalised even when it has left by the time the verdict arrives
 			for id, t := range first {
-				if !closed[id] && t <= firstCopy[id] {
+				if t <= firstCopy[id] {
 					steady[id] = true
+					if closed[id] {
+						s.probe("forwarder_disconnected_during_run")
+					}
 				}
 			}
 		}
@@ -330,7 +344,7 @@ func runC04(s *sim) {
 					srcs[c.from] = true
 				}
 				for _, fp := range w.allFakes() {
-					if fp.version != 4 || srcs[fp.id] || !fp.inAlive() || fp.stalledNow() {
+					if fp.version != 4 || srcs[fp.id] || !fp.inAlive() || fp.stalledNow() || fp.disturbed {
 						continue
 					}
 					if _, in := w.n.ps.topics[topic][fp.id]; !in {
@@ -491,7 +505,7 @@ func (w *nodeWorld) startNodeC04(extra ...Option) error {
 		}
 		sp := &PeerScoreParams{
 			AppSpecificScore:  func(pid peer.ID) float64 { return w.getAppScore(pid) },
-			AppSpecificWeight: 1, DecayInterval: time.Second, DecayToZero: 0.0001, RetainScore: time.Minute,
+			AppSpecificWeight: 1, DecayInterval: time.Second, DecayToZero: 0.0001, RetainScore: 10 * time.Minute,
 			Topics: topics, SeenMsgTTL: 10 * time.Minute,
 		}
 		th := &PeerScoreThresholds{GossipThreshold: -1000, PublishThreshold: -2000, GraylistThreshold: -3000, AcceptPXThreshold: 10, OpportunisticGraftThreshold: 1}
